@@ -77,6 +77,8 @@ Inductive ev :=
 | EvJoinSkipped (t : tid) (c : ch) (g : gen) (* ghost: Client.Subscribe returned before its join (push not enqueued) *)
 | EvLeave (c : ch) (g : gen)       (* Broker.PublishLeave *)
 | EvUnsubCb (c : ch) (g : gen)     (* OnUnsubscribe handler *)
+| EvDelete (c : ch) (g : gen)      (* ghost: unsubscribe() removed generation g's context from c.channels *)
+| EvUnsubSkipped (c : ch) (g : gen) (* ghost: a subscribed context was torn down while no OnUnsubscribe handler is registered *)
 | EvConnectCb | EvDisconnectCb | EvAliveCb.
 
 (* ---- threads ---- *)
@@ -424,7 +426,7 @@ Definition u_step (s : st) (t : tid) (u : urec) (b : bool) : option (st * option
       | Some x =>
           if c_gen x =? u_tgt u then
             let s1 := if c_gate x then close_gate (c_gen x) s else s in
-            Some (set_gst1 (c_gen x) (GTear t c) (set_chans (remove c (chans s1)) s1),
+            Some (log (EvDelete c (c_gen x)) (set_gst1 (c_gen x) (GTear t c) (set_chans (remove c (chans s1)) s1)),
                   Some (mkU c UPres (u_tgt u) (u_ctx u) (c_gen x) (u_wg u)))
           else Some (s, None)
       | None => Some (s, None)
@@ -438,7 +440,9 @@ Definition u_step (s : st) (t : tid) (u : urec) (b : bool) : option (st * option
   | UHubRem =>
       if slock s c then None else Some (hubrem c (u_rm u) s, Some (with_upc u UHandler))
   | UHandler =>
-      let s1 := if c_sub (u_ctx u) && hreg s then log (EvUnsubCb c (u_rm u)) s else s in
+      let s1 := if c_sub (u_ctx u)
+                then (if hreg s then log (EvUnsubCb c (u_rm u)) s else log (EvUnsubSkipped c (u_rm u)) s)
+                else s in
       Some (set_gst1 (u_rm u) GDead s1, None)
   end.
 
